@@ -194,7 +194,17 @@ def _worker_main(modname, conn):
             mod.run_job(job, T)
             conn.send(('ok', idx, T.export()))
         except BaseException:
-            conn.send(('error', idx, traceback.format_exc()))
+            # The checks are silent on the tree they were built against, so an exception escaping from a job means the tree
+            # under test made the harness meet something it has never seen (a result of an unexpected shape, an exception
+            # from a place that never raises).  That is reported as a violation with the traceback, not as a harness error:
+            # a behaviour change must never be able to hide behind "the check crashed".
+            tb = traceback.format_exc()
+            T.violation('harness', 'check-crashed:' + tb.strip().splitlines()[-1].split(':')[0][:40], {'job': repr(job)[:300]}, detail=tb[-1500:])
+            T.ev(1)
+            try:
+                conn.send(('ok', idx, T.export()))
+            except BaseException:
+                conn.send(('error', idx, tb))
 
 
 class Aggregate:
